@@ -1,0 +1,286 @@
+/*
+ * Atree - Scalable Arrays and Ordered Maps
+ *
+ * Copyright Flow Foundation
+ *
+ * Licensed under the Apache License, Version 2.0 (the "License");
+ * you may not use this file except in compliance with the License.
+ * You may obtain a copy of the License at
+ *
+ *   http://www.apache.org/licenses/LICENSE-2.0
+ *
+ * Unless required by applicable law or agreed to in writing, software
+ * distributed under the License is distributed on an "AS IS" BASIS,
+ * WITHOUT WARRANTIES OR CONDITIONS OF ANY KIND, either express or implied.
+ * See the License for the specific language governing permissions and
+ * limitations under the License.
+ */
+
+//go:build verif
+
+package atree
+
+//@ # ---------------------------------------------------------------- map_elements_hashkey.go: split / merge / lend / borrow of a
+//@ # sorted-digest element list, and the map leaf (map_data_slab.go) on top of it (C02, C05, C06, C09)
+
+//@ # every element of a first-level list respects the per-element inline limit (a larger group is spilled into its own slab)
+//@ pred hkFit(e *hkeyElements) = forall k :: 0 <= k && k < len(e.elems) ==> esz(e.elems[k]) <= maxInlineMapElementSize
+
+//@ # the list as it sits in a size-limited leaf
+//@ pred plainHk(e *hkeyElements) = wfHk(e) && hkFit(e)
+
+//@ # a list is not the nested list of one of its own elements (acyclicity of the element tree; frame assumption F)
+//@ pred notNested(e *hkeyElements) = forall k :: 0 <= k && k < len(e.elems) ==>
+//@      !(is(e.elems[k], *inlineCollisionGroup) && as(e.elems[k], *inlineCollisionGroup).elements == e)
+
+//@ func (e *hkeyElements) Split() (l, r, err)  serves C02 C05 C06
+//@   requires plainHk(e)
+//@   assume notNested(e) because "frame assumption F: a list is not nested inside its own elements"
+//@   requires e.size + 18 > maxThreshold && e.size + 18 <= maxThreshold + maxInlineMapElementSize + 8
+//@   ensures err == nil && l == e && is(r, *hkeyElements) && fresh(as(r, *hkeyElements))
+//@   ensures[C02] len(e.hkeys) + len(as(r, *hkeyElements).hkeys) == len(old(e.hkeys)) &&
+//@        (forall k :: 0 <= k && k < len(e.hkeys) ==> e.hkeys[k] == old(e.hkeys)[k] && e.elems[k] == old(e.elems)[k]) &&
+//@        (forall k :: 0 <= k && k < len(as(r, *hkeyElements).hkeys) ==> as(r, *hkeyElements).hkeys[k] == old(e.hkeys)[len(e.hkeys) + k] &&
+//@            as(r, *hkeyElements).elems[k] == old(e.elems)[len(e.hkeys) + k])
+//@   ensures[C05] minThreshold <= e.size + 18 && e.size + 18 <= maxThreshold && minThreshold <= as(r, *hkeyElements).size + 18 && as(r, *hkeyElements).size + 18 <= maxThreshold &&
+//@        len(e.elems) >= 1 && len(as(r, *hkeyElements).elems) >= 1
+//@   ensures[C06] hkShape(e) && hkShape(as(r, *hkeyElements)) && as(r, *hkeyElements).level == e.level && e.level == old(e.level)
+//@   ensures[C02] hkSorted(e) && hkSorted(as(r, *hkeyElements))
+//@   ensures[C02] len(e.hkeys) >= 1 && len(as(r, *hkeyElements).hkeys) >= 1 ==> e.hkeys[len(e.hkeys) - 1] < as(r, *hkeyElements).hkeys[0]
+//@   ensures[C06] hkSized(e)
+//@   ensures[C06] hkSized(as(r, *hkeyElements))
+//@   ensures[C05] hkPos(e) && hkPos(as(r, *hkeyElements)) && hkFit(e) && hkFit(as(r, *hkeyElements))
+//@   modifies e.hkeys, e.elems, e.size, ghost.touched, alloc
+//@   loop 1: invariant 0 <= i && i <= len(e.elems) && leftSize == 8 * i + sum(esz, e.elems, i) && leftSize < midPoint && leftCount == 0
+
+//@ # ---- lending / borrowing between two sibling lists (C05: both leaves stay in band for every slab size).
+//@ # A leaf is 18 bytes of slab prefix plus the list; the list is 8 bytes of prefix plus, per element, 8 bytes of digest and the element.
+
+//@ # to-left lending from the front of e: m elements cover `size` and leave the leaf >= min; m-1 do not cover it
+//@ pred canLendLH(e *hkeyElements, size int) = exists m :: 1 <= m && m <= len(e.elems) &&
+//@      8 * m + sum(esz, e.elems, m) >= size && e.size + 18 - (8 * m + sum(esz, e.elems, m)) >= minThreshold && 8 * (m - 1) + sum(esz, e.elems, m - 1) < size
+
+//@ # to-right lending from the back of e: the suffix starting at m-1 covers `size` and leaves the leaf >= min; the suffix from m does not
+//@ pred canLendRH(e *hkeyElements, size int) = exists m :: 1 <= m && m <= len(e.elems) &&
+//@      (e.size - 8) - (8 * (m - 1) + sum(esz, e.elems, m - 1)) >= size &&
+//@      e.size + 18 - ((e.size - 8) - (8 * (m - 1) + sum(esz, e.elems, m - 1))) >= minThreshold &&
+//@      (e.size - 8) - (8 * m + sum(esz, e.elems, m)) < size
+
+//@ func (e *hkeyElements) CanLendToLeft(size) (r)  serves C05
+//@   requires plainHk(e) && 1 <= size && size <= e.size
+//@   ensures r ==> canLendLH(e, size)
+//@   ensures !r ==> e.size + 18 < minThreshold + size + maxInlineMapElementSize + 8
+//@   pure
+//@   loop 1: invariant 0 <= i && i <= len(e.elems) && lendSize == 8 * i + sum(esz, e.elems, i) && lendSize < size && e.size - lendSize >= minThreshold - 18
+
+//@ func (e *hkeyElements) CanLendToRight(size) (r)  serves C05
+//@   requires plainHk(e) && 1 <= size && size <= e.size
+//@   ensures r ==> canLendRH(e, size)
+//@   ensures !r ==> e.size + 18 < minThreshold + size + maxInlineMapElementSize + 8
+//@   pure
+//@   loop 1: invariant -1 <= i && i < len(e.elems) && lendSize == (e.size - 8) - (8 * (i + 1) + sum(esz, e.elems, i + 1)) && lendSize < size && e.size - lendSize >= minThreshold - 18 && (i >= 0 ==> sum(esz, e.elems, i) <= sum(esz, e.elems, i + 1))
+
+//@ # digests of the left list are all smaller than digests of the right list
+//@ pred hkBefore(l *hkeyElements, r *hkeyElements) = len(l.hkeys) >= 1 && len(r.hkeys) >= 1 ==> l.hkeys[len(l.hkeys) - 1] < r.hkeys[0]
+
+//@ func (e *hkeyElements) LendToRight(re) (err)  serves C02 C05 C06
+//@   requires is(re, *hkeyElements) && e != as(re, *hkeyElements) && plainHk(e) && plainHk(as(re, *hkeyElements)) && hkBefore(e, as(re, *hkeyElements))
+//@   requires e.level == as(re, *hkeyElements).level
+//@   requires e.size + 18 <= maxThreshold && as(re, *hkeyElements).size + 18 < minThreshold
+//@   requires canLendRH(e, minThreshold - (as(re, *hkeyElements).size + 18))
+//@   assume notNested(e) && notNested(as(re, *hkeyElements)) &&
+//@        (forall k :: 0 <= k && k < len(e.elems) ==> !(is(e.elems[k], *inlineCollisionGroup) && as(e.elems[k], *inlineCollisionGroup).elements == as(re, *hkeyElements))) &&
+//@        (forall k :: 0 <= k && k < len(as(re, *hkeyElements).elems) ==> !(is(as(re, *hkeyElements).elems[k], *inlineCollisionGroup) && as(as(re, *hkeyElements).elems[k], *inlineCollisionGroup).elements == e))
+//@        because "frame assumption F: neither list is nested inside an element of either list"
+//@   ensures err == nil
+//@   ensures[C02] len(e.elems) + len(as(re, *hkeyElements).elems) == len(old(e.elems)) + len(old(as(re, *hkeyElements).elems)) && len(e.elems) <= len(old(e.elems)) &&
+//@        (forall k :: 0 <= k && k < len(e.elems) ==> e.elems[k] == old(e.elems)[k] && e.hkeys[k] == old(e.hkeys)[k]) &&
+//@        (forall k :: 0 <= k && k < len(old(e.elems)) - len(e.elems) ==> as(re, *hkeyElements).elems[k] == old(e.elems)[len(e.elems) + k] && as(re, *hkeyElements).hkeys[k] == old(e.hkeys)[len(e.elems) + k]) &&
+//@        (forall k :: 0 <= k && k < len(old(as(re, *hkeyElements).elems)) ==>
+//@            as(re, *hkeyElements).elems[len(old(e.elems)) - len(e.elems) + k] == old(as(re, *hkeyElements).elems)[k] &&
+//@            as(re, *hkeyElements).hkeys[len(old(e.elems)) - len(e.elems) + k] == old(as(re, *hkeyElements).hkeys)[k])
+//@   ensures[C05] minThreshold <= e.size + 18 && e.size + 18 <= maxThreshold && minThreshold <= as(re, *hkeyElements).size + 18 && as(re, *hkeyElements).size + 18 <= maxThreshold
+//@   ensures[C06] hkShape(e) && hkShape(as(re, *hkeyElements)) && e.level == old(e.level) && as(re, *hkeyElements).level == old(as(re, *hkeyElements).level)
+//@   ensures[C02] hkSorted(e) && hkSorted(as(re, *hkeyElements)) && hkBefore(e, as(re, *hkeyElements))
+//@   ensures[C06] hkSized(e)
+//@   ensures[C06] hkSized(as(re, *hkeyElements))
+//@   ensures[C05] hkPos(e) && hkPos(as(re, *hkeyElements)) && hkFit(e) && hkFit(as(re, *hkeyElements)) && len(e.elems) >= 1
+//@   modifies e.hkeys, e.elems, e.size, as(re, *hkeyElements).hkeys, as(re, *hkeyElements).elems, as(re, *hkeyElements).size, ghost.touched, alloc
+//@   loop 1: invariant -1 <= i && i < len(e.elems) && leftCount == i + 1 && leftSize == 8 * (i + 1) + sum(esz, e.elems, i + 1) && leftSize + 26 >= minThreshold &&
+//@        (i >= 0 ==> sum(esz, e.elems, i) <= sum(esz, e.elems, i + 1)) &&
+//@        (leftSize == e.size - 8 || leftSize >= midPoint || size - leftSize < minThreshold - 26 + maxInlineMapElementSize + 8)
+
+//@ func (e *hkeyElements) BorrowFromRight(re) (err)  serves C02 C05 C06
+//@   requires is(re, *hkeyElements) && e != as(re, *hkeyElements) && plainHk(e) && plainHk(as(re, *hkeyElements)) && hkBefore(e, as(re, *hkeyElements))
+//@   requires e.level == as(re, *hkeyElements).level
+//@   requires as(re, *hkeyElements).size + 18 <= maxThreshold && e.size + 18 < minThreshold
+//@   requires canLendLH(as(re, *hkeyElements), minThreshold - (e.size + 18))
+//@   assume notNested(e) && notNested(as(re, *hkeyElements)) &&
+//@        (forall k :: 0 <= k && k < len(e.elems) ==> !(is(e.elems[k], *inlineCollisionGroup) && as(e.elems[k], *inlineCollisionGroup).elements == as(re, *hkeyElements))) &&
+//@        (forall k :: 0 <= k && k < len(as(re, *hkeyElements).elems) ==> !(is(as(re, *hkeyElements).elems[k], *inlineCollisionGroup) && as(as(re, *hkeyElements).elems[k], *inlineCollisionGroup).elements == e))
+//@        because "frame assumption F: neither list is nested inside an element of either list"
+//@   ensures err == nil
+//@   ensures[C02] len(e.elems) + len(as(re, *hkeyElements).elems) == len(old(e.elems)) + len(old(as(re, *hkeyElements).elems)) && len(e.elems) >= len(old(e.elems)) &&
+//@        (forall k :: 0 <= k && k < len(old(e.elems)) ==> e.elems[k] == old(e.elems)[k] && e.hkeys[k] == old(e.hkeys)[k]) &&
+//@        (forall k :: len(old(e.elems)) <= k && k < len(e.elems) ==> e.elems[k] == old(as(re, *hkeyElements).elems)[k - len(old(e.elems))] && e.hkeys[k] == old(as(re, *hkeyElements).hkeys)[k - len(old(e.elems))]) &&
+//@        (forall k :: 0 <= k && k < len(as(re, *hkeyElements).elems) ==>
+//@            as(re, *hkeyElements).elems[k] == old(as(re, *hkeyElements).elems)[k + len(e.elems) - len(old(e.elems))] &&
+//@            as(re, *hkeyElements).hkeys[k] == old(as(re, *hkeyElements).hkeys)[k + len(e.elems) - len(old(e.elems))])
+//@   ensures[C05] minThreshold <= e.size + 18 && e.size + 18 <= maxThreshold && minThreshold <= as(re, *hkeyElements).size + 18 && as(re, *hkeyElements).size + 18 <= maxThreshold
+//@   ensures[C06] hkShape(e) && hkShape(as(re, *hkeyElements)) && e.level == old(e.level) && as(re, *hkeyElements).level == old(as(re, *hkeyElements).level)
+//@   ensures[C02] hkSorted(e) && hkSorted(as(re, *hkeyElements)) && hkBefore(e, as(re, *hkeyElements))
+//@   ensures[C06] hkSized(e)
+//@   ensures[C06] hkSized(as(re, *hkeyElements))
+//@   ensures[C05] hkPos(e) && hkPos(as(re, *hkeyElements)) && hkFit(e) && hkFit(as(re, *hkeyElements)) && len(as(re, *hkeyElements).elems) >= 1
+//@   modifies e.hkeys, e.elems, e.size, as(re, *hkeyElements).hkeys, as(re, *hkeyElements).elems, as(re, *hkeyElements).size, ghost.touched, alloc
+//@   loop 1: invariant 0 <= i && i <= len(as(re, *hkeyElements).elems) && leftCount == len(e.elems) + i &&
+//@        leftSize == e.size - 8 + 8 * i + sum(esz, as(re, *hkeyElements).elems, i) && leftSize <= midPoint
+
+//@ # ---------------------------------------------------------------- map_data_slab.go: the size-limited map leaf. Bodies delegate to
+//@ # the element list (sealed interface: the call is resolved to the contracts of hkeyElements above; the last-level list
+//@ # singleElements never sits directly in a size-limited leaf).
+
+//@ pred mdsHk(d *MapDataSlab) = as(d.elements, *hkeyElements)
+
+//@ # shape of a non-root, non-inlined, size-limited leaf
+//@ pred mdsPlain(d *MapDataSlab) = d != nil && d.elements != nil && !d.inlined && d.extraData == nil && !d.anySize && is(d.elements, *hkeyElements)
+//@ # header summarises the list: size = slab prefix + list size, first key = smallest digest
+//@ pred mdsHdr(d *MapDataSlab) = d.header.size == 18 + mdsHk(d).size && (len(mdsHk(d).hkeys) > 0 ==> d.header.firstKey == mdsHk(d).hkeys[0])
+
+//@ pred wfMDS(d *MapDataSlab) = mdsPlain(d) && mdsHdr(d) && plainHk(mdsHk(d))
+
+//@ pred canLendLM(d *MapDataSlab, size int) = canLendLH(mdsHk(d), size)
+//@ pred canLendRM(d *MapDataSlab, size int) = canLendRH(mdsHk(d), size)
+
+//@ func (m *MapDataSlab) IsFull() (r)  serves C05
+//@   ensures r == (!m.anySize && m.header.size > maxThreshold)
+//@   pure
+
+//@ func (m *MapDataSlab) IsUnderflow() (deficit, under)  serves C05
+//@   ensures under == (!m.anySize && m.header.size < minThreshold)
+//@   ensures under ==> deficit == minThreshold - m.header.size
+//@   ensures !under ==> deficit == 0
+//@   pure
+
+//@ func (m *MapDataSlab) CanLendToLeft(size) (r)  serves C05
+//@   requires wfMDS(m) && 1 <= size && size + 18 <= m.header.size
+//@   ensures r ==> canLendLM(m, size)
+//@   ensures !r ==> m.header.size < minThreshold + size + maxInlineMapElementSize + 8
+//@   pure
+
+//@ func (m *MapDataSlab) CanLendToRight(size) (r)  serves C05
+//@   requires wfMDS(m) && 1 <= size && size + 18 <= m.header.size
+//@   ensures r ==> canLendRM(m, size)
+//@   ensures !r ==> m.header.size < minThreshold + size + maxInlineMapElementSize + 8
+//@   pure
+
+//@ func (m *MapDataSlab) Split(storage) (left, right, err)  serves C02 C05 C06 C09
+//@   requires wfMDS(m) && storage != nil && m.header.size > maxThreshold && m.header.size <= maxThreshold + maxInlineMapElementSize + 8
+//@   assume notNested(mdsHk(m)) && inSub(m, m.elements) because "frame assumption F: a list is not nested inside its own elements; the element list belongs to the subtree of its leaf"
+//@   ensures err != nil ==> categorised(err)
+//@   ensures err == nil ==> left == m && is(right, *MapDataSlab) && fresh(as(right, *MapDataSlab)) && mdsPlain(m) && mdsPlain(as(right, *MapDataSlab))
+//@   ensures[C06] err == nil ==> mdsHdr(m) && mdsHdr(as(right, *MapDataSlab))
+//@   ensures[C05 C06] err == nil ==> plainHk(mdsHk(m)) && plainHk(mdsHk(as(right, *MapDataSlab)))
+//@   ensures[C05] err == nil ==> mhdrBand(m.header) && mhdrBand(as(right, *MapDataSlab).header)
+//@   ensures[C02] err == nil ==> m.header.firstKey == old(m.header.firstKey) && m.header.firstKey < as(right, *MapDataSlab).header.firstKey
+//@   ensures[C02] err == nil ==> len(mdsHk(m).hkeys) + len(mdsHk(as(right, *MapDataSlab)).hkeys) == len(old(mdsHk(m).hkeys)) &&
+//@        (forall k :: 0 <= k && k < len(mdsHk(m).hkeys) ==> mdsHk(m).hkeys[k] == old(mdsHk(m).hkeys)[k] && mdsHk(m).elems[k] == old(mdsHk(m).elems)[k]) &&
+//@        (forall k :: 0 <= k && k < len(mdsHk(as(right, *MapDataSlab)).hkeys) ==>
+//@            mdsHk(as(right, *MapDataSlab)).hkeys[k] == old(mdsHk(m).hkeys)[len(mdsHk(m).hkeys) + k] && mdsHk(as(right, *MapDataSlab)).elems[k] == old(mdsHk(m).elems)[len(mdsHk(m).hkeys) + k])
+//@   ensures[C09] err == nil ==> m.header.slabID == old(m.header.slabID) && as(right, *MapDataSlab).header.slabID.address == old(m.header.slabID.address) &&
+//@        as(right, *MapDataSlab).header.slabID != SlabIDUndefined && sto[as(right, *MapDataSlab).header.slabID] == nil &&
+//@        as(right, *MapDataSlab).next == old(m.next) && m.next == as(right, *MapDataSlab).header.slabID
+//@   modifies m.elements, m.header, m.next, hkeyElements.*@inSub(m), singleElements.*@inSub(m), ghost.touched, alloc
+
+//@ func (m *MapDataSlab) Merge(slab) (err)  serves C02 C05 C06 C09
+//@   requires is(slab, *MapDataSlab) && m != as(slab, *MapDataSlab) && wfMDS(m) && wfMDS(as(slab, *MapDataSlab)) && mdsHk(m) != mdsHk(as(slab, *MapDataSlab))
+//@   requires hkBefore(mdsHk(m), mdsHk(as(slab, *MapDataSlab))) && m.header.size + as(slab, *MapDataSlab).header.size <= 4294967295
+//@   assume notNested(mdsHk(m)) && inSub(m, m.elements) &&
+//@        (forall k :: 0 <= k && k < len(mdsHk(as(slab, *MapDataSlab)).elems) ==> !(is(mdsHk(as(slab, *MapDataSlab)).elems[k], *inlineCollisionGroup) && as(mdsHk(as(slab, *MapDataSlab)).elems[k], *inlineCollisionGroup).elements == mdsHk(m)))
+//@        because "frame assumption F: the list is not nested inside an element of either list; the element list belongs to the subtree of its leaf"
+//@   ensures err == nil
+//@   ensures[C06] mdsPlain(m) && mdsHdr(m) && m.header.size == old(m.header.size) + old(as(slab, *MapDataSlab).header.size) - 18 - 8
+//@   ensures[C05 C06] hkShape(mdsHk(m)) && hkSorted(mdsHk(m)) && hkPos(mdsHk(m)) && hkFit(mdsHk(m))
+//@   ensures[C06] hkSized(mdsHk(m))
+//@   ensures[C02] len(mdsHk(m).hkeys) == len(old(mdsHk(m).hkeys)) + len(old(mdsHk(as(slab, *MapDataSlab)).hkeys)) &&
+//@        (forall k :: 0 <= k && k < len(old(mdsHk(m).hkeys)) ==> mdsHk(m).hkeys[k] == old(mdsHk(m).hkeys)[k] && mdsHk(m).elems[k] == old(mdsHk(m).elems)[k]) &&
+//@        (forall k :: 0 <= k && k < len(old(mdsHk(as(slab, *MapDataSlab)).hkeys)) ==>
+//@            mdsHk(m).hkeys[len(old(mdsHk(m).hkeys)) + k] == old(mdsHk(as(slab, *MapDataSlab)).hkeys)[k] && mdsHk(m).elems[len(old(mdsHk(m).hkeys)) + k] == old(mdsHk(as(slab, *MapDataSlab)).elems)[k])
+//@   ensures[C09] m.header.slabID == old(m.header.slabID) && m.next == old(as(slab, *MapDataSlab).next) &&
+//@        (len(old(mdsHk(m).hkeys)) > 0 ==> m.header.firstKey == old(m.header.firstKey))
+//@   modifies m.elements, m.header, m.next, hkeyElements.*@inSub(m), singleElements.*@inSub(m), ghost.touched, alloc
+
+//@ func (m *MapDataSlab) LendToRight(slab) (err)  serves C02 C05 C06
+//@   requires is(slab, *MapDataSlab) && m != as(slab, *MapDataSlab) && wfMDS(m) && wfMDS(as(slab, *MapDataSlab)) && mdsHk(m) != mdsHk(as(slab, *MapDataSlab))
+//@   requires hkBefore(mdsHk(m), mdsHk(as(slab, *MapDataSlab))) && mdsHk(m).level == mdsHk(as(slab, *MapDataSlab)).level
+//@   requires m.header.size <= maxThreshold && as(slab, *MapDataSlab).header.size < minThreshold && canLendRM(m, minThreshold - as(slab, *MapDataSlab).header.size)
+//@   assume inSub(m, m.elements) && inSub(slab, as(slab, *MapDataSlab).elements) because "frame assumption F: the element list belongs to the subtree of its leaf"
+//@   ensures err == nil
+//@   ensures[C06] mdsPlain(m) && mdsPlain(as(slab, *MapDataSlab)) && mdsHdr(m) && mdsHdr(as(slab, *MapDataSlab))
+//@   ensures[C05 C06] plainHk(mdsHk(m)) && plainHk(mdsHk(as(slab, *MapDataSlab)))
+//@   ensures[C05] mhdrBand(m.header) && mhdrBand(as(slab, *MapDataSlab).header)
+//@   ensures[C02] hkBefore(mdsHk(m), mdsHk(as(slab, *MapDataSlab))) && m.header.firstKey == old(m.header.firstKey) && m.elements == old(m.elements) && as(slab, *MapDataSlab).elements == old(as(slab, *MapDataSlab).elements)
+//@   ensures[C09] m.header.slabID == old(m.header.slabID) && as(slab, *MapDataSlab).header.slabID == old(as(slab, *MapDataSlab).header.slabID) &&
+//@        m.next == old(m.next) && as(slab, *MapDataSlab).next == old(as(slab, *MapDataSlab).next)
+//@   modifies m.elements, m.header, as(slab, *MapDataSlab).elements, as(slab, *MapDataSlab).header, hkeyElements.*@inSub(m), hkeyElements.*@inSub(slab), ghost.touched, alloc
+
+//@ func (m *MapDataSlab) BorrowFromRight(slab) (err)  serves C02 C05 C06
+//@   requires is(slab, *MapDataSlab) && m != as(slab, *MapDataSlab) && wfMDS(m) && wfMDS(as(slab, *MapDataSlab)) && mdsHk(m) != mdsHk(as(slab, *MapDataSlab))
+//@   requires hkBefore(mdsHk(m), mdsHk(as(slab, *MapDataSlab))) && mdsHk(m).level == mdsHk(as(slab, *MapDataSlab)).level
+//@   requires as(slab, *MapDataSlab).header.size <= maxThreshold && m.header.size < minThreshold && canLendLM(as(slab, *MapDataSlab), minThreshold - m.header.size)
+//@   assume inSub(m, m.elements) && inSub(slab, as(slab, *MapDataSlab).elements) because "frame assumption F: the element list belongs to the subtree of its leaf"
+//@   ensures err == nil
+//@   ensures[C06] mdsPlain(m) && mdsPlain(as(slab, *MapDataSlab)) && mdsHdr(m) && mdsHdr(as(slab, *MapDataSlab))
+//@   ensures[C05 C06] plainHk(mdsHk(m)) && plainHk(mdsHk(as(slab, *MapDataSlab)))
+//@   ensures[C05] mhdrBand(m.header) && mhdrBand(as(slab, *MapDataSlab).header)
+//@   ensures[C02] hkBefore(mdsHk(m), mdsHk(as(slab, *MapDataSlab))) && m.elements == old(m.elements) && as(slab, *MapDataSlab).elements == old(as(slab, *MapDataSlab).elements) &&
+//@        (len(old(mdsHk(m).hkeys)) > 0 ==> m.header.firstKey == old(m.header.firstKey))
+//@   ensures[C09] m.header.slabID == old(m.header.slabID) && as(slab, *MapDataSlab).header.slabID == old(as(slab, *MapDataSlab).header.slabID) &&
+//@        m.next == old(m.next) && as(slab, *MapDataSlab).next == old(as(slab, *MapDataSlab).next)
+//@   modifies m.elements, m.header, as(slab, *MapDataSlab).elements, as(slab, *MapDataSlab).header, hkeyElements.*@inSub(m), hkeyElements.*@inSub(slab), ghost.touched, alloc
+
+//@ # ---- insertion / removal at a map leaf of any kind (plain, root, inlined): header refreshed from the list, leaf recorded as dirty
+//@ pred mdsPrefix(d *MapDataSlab) = ite(d.inlined, inlinedMapDataSlabPrefixSize, ite(d.extraData != nil, mapRootDataSlabPrefixSize, mapDataSlabPrefixSize))
+//@ pred mdsHdrG(d *MapDataSlab) = d.header.size == mdsPrefix(d) + mdsHk(d).size && (len(mdsHk(d).hkeys) > 0 ==> d.header.firstKey == mdsHk(d).hkeys[0])
+//@ # a size-limited leaf of any kind over a sorted-digest list
+//@ pred wfMDSG(d *MapDataSlab) = d != nil && d.elements != nil && is(d.elements, *hkeyElements) && wfHk(mdsHk(d)) && mdsHdrG(d)
+
+//@ pred stoFrameMDS(d *MapDataSlab, vr1 ref, vr2 ref) = forall id SlabID :: old(sto[id]) != nil && old(sto[id]) != vr1 && old(sto[id]) != vr2 && id != old(d.header.slabID) && !inSub(d, old(sto[id])) ==> sto[id] == old(sto[id])
+
+//@ func (m *MapDataSlab) Set(storage, b, digester, level, hkey, comparator, hip, key, value) (ks, existing, err)  serves C02 C03 C05 C06
+//@   requires wfMDSG(m) && storage != nil && digester != nil && comparator != nil && key != nil && value != nil && m.header.size <= 4000000000
+//@   assume inSub(m, m.elements) && m.header.slabID != SlabIDUndefined && valueRoot(key) != m && valueRoot(value) != m
+//@        because "frame assumption F: the element list belongs to the subtree of its leaf; a leaf has an identifier; the key / value being stored is not the container that owns leaf m"
+//@   ensures[C06] err == nil ==> m.elements == old(m.elements) && m.inlined == old(m.inlined) && m.extraData == old(m.extraData) && m.anySize == old(m.anySize) &&
+//@        m.next == old(m.next) && m.header.slabID == old(m.header.slabID) && mdsHdrG(m)
+//@   ensures[C02 C05 C06] err == nil ==> hkShape(mdsHk(m)) && hkSorted(mdsHk(m)) && hkPos(mdsHk(m))
+//@   ensures[C06] err == nil ==> hkSized(mdsHk(m))
+//@   ensures[C05] err == nil && level == 0 && old(hkFit(mdsHk(m))) ==> hkFit(mdsHk(m))
+//@   ensures[C05] err == nil && level == 0 ==> m.header.size <= old(m.header.size) + maxInlineMapElementSize + 8
+//@   ensures[C02] err == nil ==> len(mdsHk(m).hkeys) >= 1 && m.header.firstKey == ite(hkey < old(m.header.firstKey) || old(len(mdsHk(m).hkeys)) == 0, hkey, old(m.header.firstKey))
+//@   ensures[C02 C03] err == nil && !m.inlined ==> has(stored, m) && sto[m.header.slabID] == m
+//@   ensures[C09] stoFrameMDS(m, valueRoot(key), valueRoot(value))
+//@   ensures[C18] err != nil ==> m.elements == old(m.elements) && m.header.slabID == old(m.header.slabID)
+//@   # packaged: a plain first-level leaf stays a plain leaf (possibly over the size limit, which the parent repairs by splitting it)
+//@   ensures[C05 C06] err == nil && level == 0 && old(wfMDS(m)) ==> wfMDS(m)
+//@   ensures[C05] err == nil ==> m.header.size >= mdsPrefix(m) + 16
+//@   modifies m.header, hkeyElements.*@inSub(m), singleElements.*@inSub(m), singleElement.*@inSub(m), inlineCollisionGroup.*@inSub(m), externalCollisionGroup.*@inSub(m),
+//@        MapDataSlab.*@inSub(m), ghost.refusals, ghost.sto, ghost.stored, ghost.touched, alloc,
+//@        as(valueRoot(key), *ArrayDataSlab).header, as(valueRoot(key), *ArrayDataSlab).inlined, as(valueRoot(key), *MapDataSlab).header, as(valueRoot(key), *MapDataSlab).inlined,
+//@        as(valueRoot(value), *ArrayDataSlab).header, as(valueRoot(value), *ArrayDataSlab).inlined, as(valueRoot(value), *MapDataSlab).header, as(valueRoot(value), *MapDataSlab).inlined
+
+//@ func (m *MapDataSlab) Remove(storage, digester, level, hkey, comparator, key) (k, v, err)  serves C02 C03 C05 C06
+//@   requires wfMDSG(m) && storage != nil && digester != nil && comparator != nil && m.header.size <= 4000000000
+//@   assume inSub(m, m.elements) && m.header.slabID != SlabIDUndefined because "frame assumption F: the element list belongs to the subtree of its leaf; a leaf has an identifier"
+//@   ensures[C06] err == nil ==> m.elements == old(m.elements) && m.inlined == old(m.inlined) && m.extraData == old(m.extraData) && m.anySize == old(m.anySize) &&
+//@        m.next == old(m.next) && m.header.slabID == old(m.header.slabID) && mdsHdrG(m)
+//@   ensures[C02 C05 C06] err == nil ==> hkShape(mdsHk(m)) && hkSorted(mdsHk(m)) && hkPos(mdsHk(m))
+//@   ensures[C06] err == nil ==> hkSized(mdsHk(m))
+//@   ensures[C05] err == nil && old(hkFit(mdsHk(m))) ==> hkFit(mdsHk(m)) && m.header.size <= old(m.header.size) + maxInlineMapElementSize
+//@   ensures[C02] err == nil ==> (len(mdsHk(m).hkeys) >= 1 ==> m.header.firstKey >= old(m.header.firstKey)) && (len(mdsHk(m).hkeys) == 0 ==> m.header.firstKey == 0)
+//@   ensures[C02 C03] err == nil && !m.inlined ==> has(stored, m) && sto[m.header.slabID] == m
+//@   ensures[C09] stoFrameMDS(m, nil, nil)
+//@   ensures[C18] err != nil ==> m.elements == old(m.elements) && m.header.slabID == old(m.header.slabID)
+//@   ensures[C05 C06] err == nil && old(wfMDS(m)) ==> wfMDS(m)
+//@   modifies m.header, hkeyElements.*@inSub(m), singleElements.*@inSub(m), singleElement.*@inSub(m), inlineCollisionGroup.*@inSub(m), externalCollisionGroup.*@inSub(m),
+//@        MapDataSlab.*@inSub(m), ghost.sto, ghost.stored, ghost.touched, alloc
